@@ -392,7 +392,18 @@ def cv_case(draw):
     k_pattern = draw(st.sampled_from([1, 2, 2]))
     if n >= 9:
         k_pattern = draw(st.sampled_from([1, 2, 3]))
-    return dict(n=n, rows=rows, kind=kind, groups=groups, k_rdm=k_rdm, k_pattern=k_pattern,
+    # pattern folds over a grouping descriptor whose members are stored interleaved and whose labels
+    # are not in sorted order: 4 groups of >= 2 conditions (n >= 8), at most 2 folds, so that every
+    # test fold holds >= 2 groups (>= 4 conditions)
+    cat = None
+    if n >= 8 and draw(st.booleans()):
+        names = draw(st.sampled_from([[7, -1, 3, 5], ['tool', 'body', 'face', 'house'],
+                                      [2.5, 0.5, 10.0, -1.5]]))
+        members = [0, 1, 2, 3, 0, 1, 2, 3] + [draw(st.integers(0, 3)) for _ in range(n - 8)]
+        order = draw(gen.permutation(n))
+        cat = [names[members[i]] for i in order]
+        k_pattern = draw(st.sampled_from([1, 2]))
+    return dict(n=n, rows=rows, kind=kind, groups=groups, k_rdm=k_rdm, k_pattern=k_pattern, cat=cat,
                 random=draw(st.booleans()), seed=draw(st.integers(0, 2 ** 31 - 1)),
                 method=draw(st.sampled_from(CV_METHODS)))
 
@@ -402,18 +413,25 @@ def check_cv(case):
     sig = 'cv:' + method
     a = np.array(case['rows'], dtype=float)
     k = len(a)
-    rd = RDMs(a.copy(), rdm_descriptors={'grp': list(case['groups']), 'rid': list(range(k))})
+    cat = case.get('cat')
+    pdesc = 'index' if cat is None else 'cat'
+    rd = RDMs(a.copy(), rdm_descriptors={'grp': list(case['groups']), 'rid': list(range(k))},
+              pattern_descriptors=None if cat is None else {'cat': list(cat)})
     np.random.seed(case['seed'])
     train_set, test_set, ceil_set = lib(sets_k_fold, rd, k_rdm=case['k_rdm'],
                                         k_pattern=case['k_pattern'], random=case['random'],
-                                        pattern_descriptor='index', rdm_descriptor='grp')
+                                        pattern_descriptor=pdesc, rdm_descriptor='grp')
     # read the folds back by descriptor and recompute from the original data
     full_pool = cref.pool(a, method)
     lows, ups = [], []
     for ceil, test in zip(ceil_set, test_set):
         tr_ids = [int(i) for i in ceil[0].rdm_descriptors['rid']]
         te_ids = [int(i) for i in test[0].rdm_descriptors['rid']]
-        cond = [int(c) for c in test[1]]
+        if cat is None:
+            cond = [int(c) for c in test[1]]
+        else:   # the fold names group labels: its conditions are all members, in storage order
+            named = list(test[1])
+            cond = [i for i in range(n) if any(cat[i] == x for x in named)]
         require(len(cond) >= 3 and len(te_ids) >= 1 and len(tr_ids) >= 1, 'fold too small', 'harness')
         v = ref.dense_v(len(cond)) if method in cref.WHITENED else None
         tr = np.array([ref.restrict_vector(a[i], n, cond) for i in tr_ids])
@@ -433,7 +451,7 @@ def check_cv(case):
     want_lo, want_up = float(np.mean(lows)), float(np.mean(ups))
     if not (np.isfinite(want_lo) and np.isfinite(want_up)):
         raise Reject('undefined similarity', 'degenerate:zero-pool')
-    lo, up = lib(cv_noise_ceiling, rd, ceil_set, test_set, method=method, pattern_descriptor='index',
+    lo, up = lib(cv_noise_ceiling, rd, ceil_set, test_set, method=method, pattern_descriptor=pdesc,
                  on_error='violation', sig=sig + ':raises')
     what = 'cv_noise_ceiling(%s), %d RDMs, k_rdm=%d, k_pattern=%d' % (method, k, case['k_rdm'],
                                                                      case['k_pattern'])
@@ -448,7 +466,8 @@ def classify_cv(case):
     singleton = len(set(case['groups'])) == k
     labels = ['method:' + case['method'], 'k_rdm=%d' % case['k_rdm'],
               'k_pattern=%d' % case['k_pattern'], 'random' if case['random'] else 'ordered',
-              'groups:' + ('singleton' if singleton else 'grouped'), 'values:' + case['kind']]
+              'groups:' + ('singleton' if singleton else 'grouped'), 'values:' + case['kind'],
+              'folds-over:' + ('index' if case.get('cat') is None else 'interleaved-category')]
     return labels, k >= 3 or not singleton or case['kind'] == 'smallpos'
 
 
